@@ -53,9 +53,12 @@ class Gen:
         if k < 0.62: return ["!", self.expr(vars_, d + 1, allow_exists)]
         if k < 0.72: return ["bound", r.choice(vars_)]
         if k < 0.80: return [r.choice(["+", "-", "*"]), self.expr(vars_, d + 1, allow_exists), self.expr(vars_, d + 1, allow_exists)]
-        if k < 0.86 and self.rich:
+        if k < 0.88 and self.rich:
             j = r.random()
             if j < 0.25: return ["coalesce", self.expr(vars_, d + 1, False), self.expr(vars_, d + 1, False)]
+            if j < 0.35:
+                v_ = r.choice(vars_)    # the guard idiom: only the selected branch may be evaluated
+                return ["if", ["bound", v_], ["var", v_], C(r.choice(self.values_pool()))] if r.random() < 0.5 else ["if", ["!", ["bound", v_]], C(r.choice(self.values_pool())), ["var", v_]]
             if j < 0.45: return ["if", self.expr(vars_, d + 1, False), self.expr(vars_, d + 1, False), self.expr(vars_, d + 1, False)]
             if j < 0.6: return [r.choice(["in", "notin"]), self.expr(vars_, d + 1, False), [self.expr(vars_, d + 2, False) for _ in range(r.choice([1, 2]))]]
             if j < 0.9: return ["call", r.choice(["isIRI", "isBlank", "isLiteral", "isNumeric", "STR", "LANG", "DATATYPE"]), self.expr(vars_, d + 1, False)]
